@@ -47,6 +47,11 @@ func main() {
 	suite := fs.String("suite", "", "suite name")
 	outdir := fs.String("outdir", "", "output directory (tables)")
 	replay := fs.String("replay", "", "replay file")
+	only := fs.Int("only", -1, "gw: run only the history with this index")
+	trace := fs.Bool("trace", false, "gw: print the full trace of the histories run")
+	model := fs.Bool("model", true, "gw: compare every history with the Lean model driver")
+	snap := fs.Bool("snap", false, "gw: include state snapshots in traces")
+	count := fs.Int("count", 0, "gw: number of histories (0 = tier default)")
 	fs.Parse(os.Args[2:])
 	_ = replay
 
@@ -64,16 +69,16 @@ func main() {
 			rule       string
 			exhaustive bool
 		}{
-			"rid":       {suiteRid(*tier, r), "all strings over 11 adversarial symbols up to a length bound + every byte in 4 contexts + random long strings; non-trivial = non-empty input; distinct by input line", false},
-			"rpc":       {suiteRpc(*tier, r), "all method strings over 17 symbols (keywords, dots, wildcards, control and non-ASCII bytes) up to a length bound + random; real rpc.HandleRequest with a recording Requester", false},
-			"pattern":   {suitePattern(*tier, r), "all patterns over {a,b,.,*,>,?} x all names over {a,b,.} up to a length bound + random long pairs; non-trivial = valid pattern", false},
-			"cancall":   {suiteCanCall(*tier, r), "all call lists over {a,b,*,','} up to a length bound x 9 actions + random word lists", false},
-			"lcs":       {suiteLCS(*tier, r, lg), "all pairs of value lists over 3 values (4 value kinds) up to a length bound + random pairs up to length 11; derived events applied by the real handleEventAdd/Remove", false},
-			"mdiff":     {suiteModelDiff(*tier, r, lg), "all pairs of models over 3-4 keys x 3 values + random; derived change applied by the real handleEventChange", false},
-			"change":    {suiteChange(*tier, r, lg), "random models x random change events with delete actions", false},
-			"headers":   {suiteHeaders(*tier, r), "case variants of the protected names (all for <= 11 letters, sampled otherwise), token/non-token names, random merges", false},
-			"origins":   {suiteOrigins(*tier, r), "all origins over 10 symbols incl. invalid UTF-8 and U+FFFD up to a length bound against exact / prefix / extended entries + random near misses", false},
-			"throttle":  {suiteThrottle(*tier, r), "all Add/Done words up to a length bound for limits 1-3 + random longer words; exported rescache.Throttle", false},
+			"rid":      {suiteRid(*tier, r), "all strings over 11 adversarial symbols up to a length bound + every byte in 4 contexts + random long strings; non-trivial = non-empty input; distinct by input line", false},
+			"rpc":      {suiteRpc(*tier, r), "all method strings over 17 symbols (keywords, dots, wildcards, control and non-ASCII bytes) up to a length bound + random; real rpc.HandleRequest with a recording Requester", false},
+			"pattern":  {suitePattern(*tier, r), "all patterns over {a,b,.,*,>,?} x all names over {a,b,.} up to a length bound + random long pairs; non-trivial = valid pattern", false},
+			"cancall":  {suiteCanCall(*tier, r), "all call lists over {a,b,*,','} up to a length bound x 9 actions + random word lists", false},
+			"lcs":      {suiteLCS(*tier, r, lg), "all pairs of value lists over 3 values (4 value kinds) up to a length bound + random pairs up to length 11; derived events applied by the real handleEventAdd/Remove", false},
+			"mdiff":    {suiteModelDiff(*tier, r, lg), "all pairs of models over 3-4 keys x 3 values + random; derived change applied by the real handleEventChange", false},
+			"change":   {suiteChange(*tier, r, lg), "random models x random change events with delete actions", false},
+			"headers":  {suiteHeaders(*tier, r), "case variants of the protected names (all for <= 11 letters, sampled otherwise), token/non-token names, random merges", false},
+			"origins":  {suiteOrigins(*tier, r), "all origins over 10 symbols incl. invalid UTF-8 and U+FFFD up to a length bound against exact / prefix / extended entries + random near misses", false},
+			"throttle": {suiteThrottle(*tier, r), "all Add/Done words up to a length bound for limits 1-3 + random longer words; exported rescache.Throttle", false},
 		}
 		names := strings.Split(*suite, ",")
 		if *suite == "" || *suite == "all" {
@@ -108,6 +113,35 @@ func main() {
 		if bad {
 			os.Exit(1)
 		}
+	case "gw-script":
+		viols, steps, err := runScript(*replay, false)
+		for _, st := range steps {
+			fmt.Println(st.Stim)
+			for _, o := range st.Wire {
+				fmt.Println("    wire: " + o)
+			}
+			for _, o := range st.Obs {
+				fmt.Println("    " + o)
+			}
+			for _, o := range st.Snap {
+				if len(o) > 600 {
+					o = o[:600] + "..."
+				}
+				fmt.Println("      " + o)
+			}
+		}
+		if err != nil {
+			fmt.Fprintln(os.Stderr, "script:", err)
+			os.Exit(2)
+		}
+		for _, v := range viols {
+			fmt.Printf("MONITOR %s/%s: %s\n", v.Prop, v.Key, v.What)
+		}
+		if len(viols) > 0 {
+			os.Exit(1)
+		}
+	case "gw":
+		os.Exit(runGW(*suite, *tier, *seed, *out, *only, *trace, *count, *snap, *driver, *model))
 	default:
 		usage()
 	}
